@@ -358,6 +358,7 @@ package cache
 //@   modifies shardOf(d, key).cache.view, shardOf(d, key).cache.dom
 //@   nopanic
 //@   ensures  [removed] !shardOf(d, key).cache.dom[keyOf(key)]
+//@   precall github.com/vicanso/pike/store.Store.Delete#0 [under-lock] held(shardOf(d, key).mu) && !shardOf(d, key).cache.dom[keyOf(key)]
 //@   atunlock [gone]   !shardOf(d, key).cache.dom[keyOf(key)]
 //@   atunlock [others] forall k any :: k != keyOf(key) ==> shardOf(d, key).cache.dom[k] == at(lastlock, shardOf(d, key).cache.dom[k])
 //@                      && shardOf(d, key).cache.view[k] == at(lastlock, shardOf(d, key).cache.view[k])
@@ -376,7 +377,7 @@ package cache
 //@ spec func acceptsGzip(ae string) bool := contains(ae, "gzip")
 //@ spec func filterOf(r *HTTPResponse) *regexp.Regexp := (r.CompressContentTypeFilter == nil) ? defaultCompressContentTypeFilter : r.CompressContentTypeFilter
 //@ pred bigEnough(r *HTTPResponse) := len(r.RawBody) > r.CompressMinLength || len(r.GzipBody) > r.CompressMinLength || len(r.BrBody) > r.CompressMinLength
-//@ pred compressible(r *HTTPResponse) := bigEnough(r) && reMatch(filterOf(r), hget($hdr[r.Header], "Content-Type"))
+//@ pred compressible(r *HTTPResponse) := bigEnough(r) && reMatch(filterOf(r), hget(hdr(r.Header), "Content-Type"))
 // the original (identity) body all stored variants stand for
 //@ spec func rawOf(r *HTTPResponse) Bytes := (len(r.RawBody) != 0) ? contents(r.RawBody) : ((len(r.GzipBody) != 0) ? gzipDec(contents(r.GzipBody)) : ((len(r.BrBody) != 0) ? brDec(contents(r.BrBody)) : contents(r.RawBody)))
 
@@ -429,9 +430,9 @@ package cache
 
 // the predicate handed to MapDelete: delete the names that are no longer configured
 //@ func (ds *dispatchers) Reset$1(key string) (del bool)
-//@   requires [opts] opts != nil
+//@   requires [opts] len(opts) >= 0
 //@   effectfree
-//@   ensures [def] del <==> !configuredName(deref(opts), key)
+//@   ensures [def] del <==> !configuredName(opts, key)
 //@   loop 0: invariant [idx]  -1 <= $idx && $idx < len(opts)
 //@   loop 0: invariant [none] forall k int :: 0 <= k && k <= $idx ==> opts[k].Name != key
 
@@ -493,3 +494,40 @@ package cache
 //@   ensures [all]    name == "" ==> forall k any :: defaultDispatchers.m.dom[k] ==> !shardOf(unbox(defaultDispatchers.m.vals[k], "*dispatcher"), key).cache.dom[keyOf(key)]
 //@   ensures [absent] name != "" && !defaultDispatchers.m.dom[box(name)] ==> forall c *lru.Cache :: c.view == old(c.view) && c.dom == old(c.dom)
 //@   ensures [locks]  nolocks()
+
+// ---- building a response from what the upstream sent (C05) -----------------------------------
+
+//@ axiom [ignore-headers]: len(ignoreHeaders) == 4 && ignoreHeaders[0] == "Content-Encoding" && ignoreHeaders[1] == "Content-Length" && ignoreHeaders[2] == "Connection" && ignoreHeaders[3] == "Date"
+//@ pred ignoredKey(k string) := k == "Content-Encoding" || k == "Content-Length" || k == "Connection" || k == "Date"
+
+// a fresh copy of the header without the four hop/size headers; the input is not touched
+//@ func cloneHeaderAndIgnore(header http.Header) (h http.Header)
+//@   nopanic
+//@   modifies $hdr
+//@   ensures [nil]     (h == nil) <==> (header == nil)
+//@   ensures [fresh]   header != nil ==> fresh(h)
+//@   ensures [ignored] forall k string :: ignoredKey(k) ==> vlen(hdr(h)[k]) == 0
+//@   ensures [rest]    forall k string :: !ignoredKey(k) ==> hdr(h)[k] == old(hdr(header)[k])
+//@   ensures [input]   forall x http.Header :: x != h ==> hdr(x) == old(hdr(x))
+//@   loop 0: modifies $hdr[h]
+//@   loop 0: invariant [idx]  -1 <= $idx && $idx < 4 && len(ignoreHeaders) == 4 && ((h == nil) <==> (header == nil)) && (header != nil ==> fresh(h))
+//@   loop 0: invariant [done] forall j int :: 0 <= j && j <= $idx ==> vlen(hdr(h)[canon(ignoreHeaders[j])]) == 0
+//@   loop 0: invariant [rest] forall k string :: !ignoredKey(k) ==> hdr(h)[k] == old(hdr(header)[k])
+//@   loop 0: invariant [input] forall x http.Header :: x != h ==> hdr(x) == old(hdr(x))
+
+//@ func NewHTTPResponse(statusCode int, header http.Header, encoding string, data []byte) (resp *HTTPResponse, err error)
+//@   modifies $hdr
+//@   nopanic
+//@   ensures [ok]       err == nil ==> resp != nil && fresh(resp) && resp.StatusCode == statusCode
+//@   ensures [known]    knownEncoding(encoding) && (encoding == "gzip" || encoding == "br" || encoding == "") ==> err == nil
+//@   ensures [unknown]  !knownEncoding(encoding) ==> err != nil
+//@   ensures [gzip]     encoding == "gzip" ==> resp.GzipBody == data && len(resp.BrBody) == 0 && len(resp.RawBody) == 0
+//@   ensures [br]       encoding == "br" ==> resp.BrBody == data && len(resp.GzipBody) == 0 && len(resp.RawBody) == 0
+//@   ensures [identity] encoding == "" ==> resp.RawBody == data && len(resp.GzipBody) == 0 && len(resp.BrBody) == 0
+//@   ensures [decoded]  err == nil && encoding != "gzip" && encoding != "br" && encoding != "" ==> contents(resp.RawBody) == decodeOf(encoding, contents(data)) && len(resp.GzipBody) == 0 && len(resp.BrBody) == 0
+//@   ensures [raw]      err == nil && len(data) != 0 && (encoding == "gzip" || encoding == "br" || encoding == "" || len(resp.RawBody) != 0) ==> rawOf(resp) == decodeOf(encoding, contents(data))
+//@   ensures [consistent] err == nil ==> consistent(resp)
+//@   ensures [header]   err == nil ==> (forall k string :: ignoredKey(k) ==> vlen(hdr(resp.Header)[k]) == 0) && (forall k string :: !ignoredKey(k) ==> hdr(resp.Header)[k] == old(hdr(header)[k]))
+//@   ensures [others]   forall x http.Header {$hdr[x]} :: x != header && allocatedBefore(x) ==> hdr(x) == old(hdr(x))
+//@   ensures [input]    forall k string :: k != "Content-Encoding" ==> hdr(header)[k] == old(hdr(header)[k])
+//@   ensures [profile]  err == nil ==> resp.CompressSrv == "" && resp.CompressMinLength == 0 && resp.CompressContentTypeFilter == nil
